@@ -146,14 +146,14 @@ Proof.
   unfold pi. cbn [bind mret fst snd]. now rewrite <- rev_alt.
 Qed.
 
-Lemma cautious_ok e n : 0 < e -> e < U32 -> exists c0, cautious e n = Ok c0 /\ 1 <= c0.
+Lemma cautious_ok e n : 0 < e -> exists c0, cautious e n = Ok c0 /\ 1 <= c0.
 Proof.
-  intros H0 H1. unfold cautious. rewrite N.mod_small by exact H1.
+  intros H0. unfold cautious.
   destruct (N.eqb_spec e 0); [lia|]. eexists. split; [reflexivity|lia].
 Qed.
 
 Lemma cdec_vec_erase e u8 (f : cparser val) g s :
-  (u8 = false -> 0 < e /\ e < U32) ->
+  (u8 = false -> 0 < e) ->
   (forall s, snd (f s) = g s) ->
   snd (cdec_vec e u8 f s) = dec_vec slice_reader u8 g s.
 Proof.
@@ -162,8 +162,8 @@ Proof.
   destruct (n =? 0); [reflexivity|].
   destruct u8.
   - rewrite snd_mbind, cbulk_erase. destruct (bulk slice_reader n s1) as [[b s2]|k m|w]; reflexivity.
-  - destruct He as [H0 H1]; [reflexivity|].
-    unfold cpush_loop. destruct (cautious_ok e n H0 H1) as (c0 & -> & _).
+  - pose proof (He eq_refl) as H0.
+    unfold cpush_loop. destruct (cautious_ok e n H0) as (c0 & -> & _).
     rewrite snd_mbind, snd_mlift. cbn [bind]. rewrite snd_mbind. cbn [emit snd bind].
     now apply crepeat_erase.
 Qed.
@@ -209,7 +209,7 @@ Proof.
     rewrite snd_mbind, snd_mlift.
     destruct (read_u32 slice_reader s) as [[n s1]|? ?|?]; cbn [bind]; try reflexivity.
     rewrite snd_mbind. unfold cpush_loop at 1.
-    destruct (cautious_ok 1 n) as (c0 & -> & _); [lia|unfold U32; lia|].
+    destruct (cautious_ok 1 n) as (c0 & -> & _); [lia|].
     rewrite snd_mbind, snd_mlift. cbn [bind]. rewrite snd_mbind. cbn [emit snd bind].
     rewrite (crepeat_erase _ _ (fun s => '(b, s') <- read_u8 slice_reader s ;; Ok (VN b, s'))) by reflexivity.
     destruct (repeat_dec _ n s1) as [[l s2]|? ?|?]; reflexivity.
